@@ -1481,9 +1481,12 @@ pub fn generate(seed: u64, tier: Tier, p: &Profile) -> Scenario {
         ops.push(Op::SelectChangeCollateral(strat, vec![], change.clone(), 150));
     }
     if pm(&mut g.r, p.post_balance_noise) {
-        ops.push(match g.r.below(3) {
+        ops.push(match g.r.below(5) {
             0 => Op::Ttl(g.amount()),
             1 => Op::ReqSigner(g.kid()),
+            // a fee request that comes after the fee was fixed: the build honours it or fails, it is not dropped
+            2 => Op::FeeMin(*g.r.pick(&[0u64, 170_000, 1_000_000, 5_000_000])),
+            3 => Op::FeeExact(*g.r.pick(&[170_000u64, 200_000, 1_000_000])),
             _ => Op::Meta(MetaSpec::Metadatum(7, 1)),
         });
     }
